@@ -41,6 +41,10 @@ def const_repr(c):
     """Hashable python representation of a driver constant object."""
     k = c.get("k")
     if k == "fn":
+        r = c.get("resolved")
+        # the impl method a trait-method fn item resolves to (same convention as callee_name for direct calls)
+        if r and r != c["path"] and not r.startswith("<T as ") and not r.startswith("<I as "):
+            return ("fn", r)
         return ("fn", c["path"])
     v = c.get("v")
     return simplify_val(v)
@@ -691,6 +695,10 @@ def callee_name(ce):
 def const_term(c):
     k = c.get("k")
     if k == "fn":
+        r = c.get("resolved")
+        # the impl method a trait-method fn item resolves to (same convention as callee_name for direct calls)
+        if r and r != c["path"] and not r.startswith("<T as ") and not r.startswith("<I as "):
+            return ("fn", r)
         return ("fn", c["path"])
     if k == "unevaluated":
         return ("named", c["def"], c.get("promoted"), const_repr(c))
